@@ -222,6 +222,10 @@ pub enum COp {
 pub struct CCase {
     pub clients: Vec<Vec<COp>>,
     pub schedule: Vec<u16>,
+    /// Some(reclaim): a snapshot of the database is queued beforehand and the periodic snapshot step runs as one more
+    /// task, interleaved with the clients (it is a thread of its own in the server)
+    #[serde(default)]
+    pub snapshot: Option<bool>,
 }
 
 const CKEYS: [&str; 2] = ["n", "m"];
@@ -238,7 +242,8 @@ fn cop_strategy() -> impl Strategy<Value = COp> {
 }
 
 pub fn ccase_strategy() -> impl Strategy<Value = CCase> {
-    (prop::collection::vec(prop::collection::vec(cop_strategy(), 1..4), 2..4), prop::collection::vec(prop_oneof![3 => Just(0u16), 2 => any::<u16>()], 0..40)).prop_map(|(clients, schedule)| CCase { clients, schedule })
+    (prop::collection::vec(prop::collection::vec(cop_strategy(), 1..4), 2..4), prop::collection::vec(prop_oneof![3 => Just(0u16), 2 => any::<u16>()], 0..40)).prop_map(|(clients, schedule)| CCase { clients, schedule, snapshot: None })
+        .prop_flat_map(|c| prop_oneof![2 => Just(None), 1 => Just(Some(false)), 1 => Just(Some(true))].prop_map(move |s| CCase { snapshot: s, ..c.clone() }))
 }
 
 /// one completed call
@@ -265,6 +270,9 @@ struct KState {
     /// known version, or a lower bound when unknown
     ver: Option<i32>,
     lb: i64,
+    /// a snapshot may run during the case: a removed key can be a tombstone that keeps a version, and a versioned
+    /// write below it is refused (the statement leaves that case open: "not older than the version get-safe reports")
+    tomb: bool,
 }
 
 fn apply(st: &KState, c: &Call) -> Option<KState> {
@@ -286,7 +294,7 @@ fn apply(st: &KState, c: &Call) -> Option<KState> {
                     }
                 }
             }
-            Some(KState { present: true, value: c.value.clone(), ver: newv, lb: newv.map(|v| v as i64).unwrap_or(if st.present { st.lb + 1 } else { i64::MIN }) })
+            Some(KState { present: true, value: c.value.clone(), ver: newv, lb: newv.map(|v| v as i64).unwrap_or(if st.present { st.lb + 1 } else { i64::MIN }), tomb: st.tomb })
         }
         COp::SetSafe { .. } => {
             if c.ok {
@@ -302,11 +310,11 @@ fn apply(st: &KState, c: &Call) -> Option<KState> {
                         }
                     }
                 }
-                Some(KState { present: true, value: c.value.clone(), ver: c.ver, lb: c.ver.map(|v| v as i64).unwrap_or(if st.present { st.lb + 1 } else { i64::MIN }) })
+                Some(KState { present: true, value: c.value.clone(), ver: c.ver, lb: c.ver.map(|v| v as i64).unwrap_or(if st.present { st.lb + 1 } else { i64::MIN }), tomb: st.tomb })
             } else {
-                // refused: only a live key with a newer version refuses
+                // refused: only a live key with a newer version refuses (or a tombstone, see KState::tomb)
                 if !st.present {
-                    return None;
+                    return if st.tomb { Some(st.clone()) } else { None };
                 }
                 if let Some(o) = st.ver {
                     if c.base >= o {
@@ -325,7 +333,7 @@ fn apply(st: &KState, c: &Call) -> Option<KState> {
             }
             let cur: i32 = if st.present { st.value.parse::<i32>().ok()? } else { 0 };
             let next = cur.checked_add(*n)?;
-            Some(KState { present: true, value: next.to_string(), ver: None, lb: if st.present { st.ver.map(|v| v as i64).unwrap_or(st.lb) + 1 } else { i64::MIN } })
+            Some(KState { present: true, value: next.to_string(), ver: None, lb: if st.present { st.ver.map(|v| v as i64).unwrap_or(st.lb) + 1 } else { i64::MIN }, tomb: st.tomb })
         }
         COp::GetSafe { .. } => {
             let (v, ver) = c.got.clone()?;
@@ -348,7 +356,7 @@ fn apply(st: &KState, c: &Call) -> Option<KState> {
                 }
             }
         }
-        COp::Remove { .. } => Some(KState { present: false, value: String::new(), ver: None, lb: i64::MIN }),
+        COp::Remove { .. } => Some(KState { present: false, value: String::new(), ver: None, lb: i64::MIN, tomb: st.tomb }),
     }
 }
 
@@ -459,6 +467,21 @@ pub fn run_conc(ctx: &Ctx, case: &CCase) -> Result<Outcome, String> {
             out
         }));
     }
+    if let Some(reclaim) = case.snapshot {
+        // the snapshot is requested now and executed by a task of its own (in the server: the declutter thread)
+        admin.send(&node, &format!("snapshot {}", reclaim));
+        node.pump();
+        let dbs = node.dbs.clone();
+        tasks.push(Box::new(move |t: &sched::TaskCtx| {
+            t.pause("cmd");
+            nundb::disk_ops::snapshot_all_pendding_dbs(&dbs);
+            vec![]
+        }));
+    }
+    if std::env::var("NV_C02_DEBUG").is_ok() {
+        let st = node.dbs.map.read().unwrap().get("d").and_then(|d| d.map.read().unwrap().get("n").map(|v| format!("{:?} v{} {:?}", v.value, v.version, v.state as i32)));
+        eprintln!("before the tasks: n = {:?}", st);
+    }
     let (results, info) = match sched::run(tasks, &case.schedule, sched::lock_sites) {
         Ok(x) => x,
         Err(e) => return Err(e),
@@ -501,7 +524,8 @@ pub fn run_conc(ctx: &Ctx, case: &CCase) -> Result<Outcome, String> {
     if fail.is_none() {
         for ki in 0..2 {
             let per_key: Vec<Call> = calls.iter().filter(|c| key_of(&c.op) == ki).cloned().collect();
-            let init = if ki == 0 { KState { present: true, value: init_n.0.clone(), ver: Some(init_n.1), lb: init_n.1 as i64 } } else { KState { present: false, value: String::new(), ver: None, lb: i64::MIN } };
+            let tomb = case.snapshot.is_some();
+            let init = if ki == 0 { KState { present: true, value: init_n.0.clone(), ver: Some(init_n.1), lb: init_n.1 as i64, tomb } } else { KState { present: false, value: String::new(), ver: None, lb: i64::MIN, tomb } };
             if !linearizable(&per_key, &init) {
                 // name the corollary for readability
                 let succ: Vec<&Call> = per_key.iter().filter(|c| c.ok && matches!(c.op, COp::SetSafe { .. })).collect();
@@ -662,7 +686,7 @@ pub fn run(ctx: &Ctx, rep: &mut Report) {
     if rep.failures.is_empty() {
         let progs = small_programs();
         let scheds = bounded_schedules(if ctx.quick() { 14 } else { 22 });
-        let cases = progs.into_iter().flat_map(move |p| scheds.clone().into_iter().map(move |s| CCase { clients: p.clone(), schedule: s }));
+        let cases = progs.into_iter().flat_map(move |p| scheds.clone().into_iter().map(move |s| CCase { clients: p.clone(), schedule: s, snapshot: None }));
         enumerate(ctx, rep, "two-clients-all-schedules-with-at-most-2-preemptions", cases, |c| conc_guard(ctx, c));
     }
     if rep.failures.is_empty() {
